@@ -171,7 +171,7 @@ func (db *MultiBucketBackend) getBucketWithFilePrefixLocked(bucket string, prefi
 			size := entry.Size()
 			mtime := entry.ModTime()
 
-			meta, err := db.metaStore.loadMeta(bucket, objectPath, size, mtime)
+			meta, err := db.metaStore.loadMeta(bucket, objectPath, size, mtime, db.bucketFs, path.Join(bucket, objectPath))
 			if err != nil {
 				return nil, err
 			}
@@ -222,7 +222,7 @@ func (db *MultiBucketBackend) getBucketWithArbitraryPrefixLocked(bucket string, 
 
 		size := info.Size()
 		mtime := info.ModTime()
-		meta, err := db.metaStore.loadMeta(bucket, objectName, size, mtime)
+		meta, err := db.metaStore.loadMeta(bucket, objectName, size, mtime, db.bucketFs, objectPath)
 		if err != nil {
 			return err
 		}
@@ -369,7 +369,7 @@ func (db *MultiBucketBackend) HeadObject(bucketName, objectName string) (*gofake
 
 	size, mtime := stat.Size(), stat.ModTime()
 
-	meta, err := db.metaStore.loadMeta(bucketName, objectName, size, mtime)
+	meta, err := db.metaStore.loadMeta(bucketName, objectName, size, mtime, db.bucketFs, fullPath)
 	if err != nil {
 		return nil, err
 	}
@@ -435,7 +435,7 @@ func (db *MultiBucketBackend) GetObject(bucketName, objectName string, rangeRequ
 		rdr = limitReadCloser(rdr, f.Close, rnge.Length)
 	}
 
-	meta, err := db.metaStore.loadMeta(bucketName, objectName, size, mtime)
+	meta, err := db.metaStore.loadMeta(bucketName, objectName, size, mtime, db.bucketFs, fullPath)
 	if err != nil {
 		return nil, err
 	}
